@@ -965,6 +965,11 @@ class Gen:
         body, lbl = self.loop_body(cx, trips)
         cx.pop()
         self.feat.add('range-' + seqkind(t))
+        if seqkind(t) == 'arr' and vx is not None and not isinstance(e, SeqLit):
+            # llgo indexes the ORIGINAL array when the body mutates it (finding range:array-value-aliased-by-value-loop, replayed
+            # from the corpus): random programs range over a copy the body cannot reach
+            tmp = self.newvar(cx, t, 'rc')
+            return [Decl([tmp], [e]), RangeSeq(lbl, kx, vx, VarRef(tmp), body)]
         return [RangeSeq(lbl, kx, vx, e, body)]
 
     # ------------------------------------------------------------------ calls, closures, functions
